@@ -801,10 +801,32 @@ func (cs *clientScen) post() {
 				}
 				return fmt.Sprintf("resp#%d full=%v brokers=%v %v", in.write.Idx, in.write.Full, in.write.Brokers, ts)
 			}
-			return fmt.Sprintf("%s(%s/%d)=%v", in.rd.Kind, in.rd.Topic, in.rd.Partition, output)
+			t := ""
+			if in.tol {
+				t = " (after unreachability)"
+			}
+			return fmt.Sprintf("%s(%s/%d)=%v%s", in.rd.Kind, in.rd.Topic, in.rd.Partition, output, t)
 		},
 	}
 	res := porcupine.CheckOperationsTimeout(model, ops, 20*time.Second)
+	cls := ""
+	if res == porcupine.Illegal && notConnectedLogged {
+		// The client itself reported that it gave a broker up on ErrNotConnected (the Broker.Open race, known finding
+		// KF-C15-open-race): is the history explained once the reads are granted the tolerance that injected
+		// unreachability would grant (a subset of the broker list, "leader not available")? If so the violation is
+		// classed as that finding's consequence; if not it is reported as an unexplained one.
+		ops2 := make([]porcupine.Operation, len(ops))
+		copy(ops2, ops)
+		for i := range ops2 {
+			if in, ok := ops2[i].Input.(pIn); ok && in.write == nil {
+				in.tol = true
+				ops2[i].Input = in
+			}
+		}
+		if porcupine.CheckOperationsTimeout(model, ops2, 20*time.Second) == porcupine.Ok {
+			cls = "after-broker-not-connected,explained-by-set-aside-brokers"
+		}
+	}
 	switch res {
 	case porcupine.Illegal:
 		var lines []string
@@ -814,7 +836,7 @@ func (cs *clientScen) post() {
 		if len(lines) > 40 {
 			lines = lines[:40]
 		}
-		cs.r.violate("C15.view-not-linearizable", "client reads cannot be explained by any order of the served metadata responses (each read must see exactly the state after some prefix-consistent application of responses):\n%s", strings.Join(lines, "\n"))
+		cs.r.violateClass("C15.view-not-linearizable", cls, "client reads cannot be explained by any order of the served metadata responses (each read must see exactly the state after some prefix-consistent application of responses):\n%s", strings.Join(lines, "\n"))
 	case porcupine.Unknown:
 		cs.r.inconclusive = "porcupine timed out"
 	}
